@@ -577,11 +577,11 @@ func ruleFreshID(c *Ctx) {
 	// the counter itself only ever grows: every store to it outside the loader and outside the construction of a new
 	// database stores (its own value + a positive constant). A counter that is set back (by a flush, say) hands out the
 	// ids of objects that connections have already watched.
-	k := 0
 	for _, fn := range c.SrcFuncs() {
 		if loaderExempt(fn) {
 			continue
 		}
+		k := 0 // numbered per function: the order of the files is not the same in every run
 		for _, in := range instrsOf(fn) {
 			st, ok := isStoreTo(in, fCtr)
 			if !ok {
